@@ -119,7 +119,7 @@ func CompareRun(refVal lang.V, refErr *lang.ErrV, refTrace []string, o *sut.Outc
 	case o.Panic != "":
 		return "escaped-panic:" + o.Site, "panic escaped EvalString: " + o.Panic + "\n  reference: " + rs
 	case o.Budget:
-		return "did-not-return", "step budget exceeded although the reference terminates; reference: " + rs
+		return "did-not-return", "step budget exceeded although the reference terminates; reference: " + rs + tr()
 	case o.Err == nil && o.Val == nil:
 		return "nil-value-nil-error", "EvalString returned (nil, nil); reference: " + rs
 	case refErr != nil && o.Err == nil:
